@@ -2142,3 +2142,42 @@ Proof.
     + now apply Bool.negb_true_iff.
   - intros t t' Et. cbn. rewrite forallb_forall in Hf. apply Hf. apply prefixes_spec. now exists t'.
 Qed.
+
+(* ---------------------------------------------------------------------------------------------- *)
+(* histories in which the prompt pattern is changed between operations.  The invariant between operations ([Inv]:
+   device at its prompt, nothing unread but a suffix of the prompt's trailing blank, no carried-over escape sequence)
+   does not mention the pattern, so the segments compose: every segment is judged against the pattern IN FORCE while
+   it runs - the prompt is a prompt of that pattern ([prompt_okb]) and the outputs of ITS operations are quiet under
+   that pattern ([ops_run] over the segment's configuration); what an earlier or later pattern would read as a prompt
+   is no condition. *)
+Inductive segs_run (ansi partial : re) (scan : bool) (d : nat) (ret : bytes) (e : env) (core trail : bytes)
+  : nat -> list seg -> list xres -> nat -> list (bytes * bytes) -> Prop :=
+| SR_nil k : segs_run ansi partial scan d ret e core trail k [] [] k []
+| SR_cons k r ops xs k1 l1 segs xs' k2 l2 :
+    prompt_okb r d core trail = true ->
+    ops_run (re_cfg r ansi partial scan d ret) e core trail k ops xs k1 l1 ->
+    segs_run ansi partial scan d ret e core trail k1 segs xs' k2 l2 ->
+    segs_run ansi partial scan d ret e core trail k ((r, ops) :: segs) (xs ++ xs') k2 (l1 ++ l2).
+
+Theorem history_segments ansi partial scan d ret e core trail :
+  is_ret ret -> is_ret (e_nl e) -> e_prompt e = core ++ trail ->
+  forall segs xs w k' l,
+    Inv trail w ->
+    segs_run ansi partial scan d ret e core trail (d_count (w_dev w)) segs xs k' l ->
+    exists rs w',
+      run_segs (fun r => re_cfg r ansi partial scan d ret) e segs w = (rs, Ok w') /\ Inv trail w' /\
+      Forall2 (res_ok core trail) xs rs /\
+      d_count (w_dev w') = k' /\ d_log (w_dev w') = d_log (w_dev w) ++ l.
+Proof.
+  intros Hret Hnl Hp. induction segs as [|[r ops] segs IH]; intros xs w k' l HI Hrun.
+  - inversion Hrun; subst. exists [], w. cbn [run_segs]. rewrite app_nil_r.
+    split; [reflexivity|]. split; [assumption|]. split; [constructor|]. split; reflexivity.
+  - inversion Hrun as [|? ? ? xs1 k1 l1 ? xs2 ? l2 Hok Hops Hrest]; subst.
+    destruct (history_concrete r ansi partial scan d ret e core trail Hret Hnl Hp Hok ops xs1 w k1 l1 HI Hops)
+      as (rs1 & w1 & Hr1 & HI1 & Hres1 & Hk1 & Hl1 & _).
+    rewrite <- Hk1 in Hrest.
+    destruct (IH xs2 w1 k' l2 HI1 Hrest) as (rs2 & w2 & Hr2 & HI2 & Hres2 & Hk2 & Hl2).
+    exists (rs1 ++ rs2), w2. cbn [run_segs]. cbn beta. rewrite Hr1, Hr2.
+    split; [reflexivity|]. split; [assumption|]. split; [apply Forall2_app; assumption|].
+    split; [assumption|]. rewrite Hl2, Hl1, app_assoc. reflexivity.
+Qed.
